@@ -360,6 +360,9 @@ func wfaultWorker(p *wfaultParams, st *Stats) {
 		if i%p.of != p.shard {
 			continue
 		}
+		if stopAtFirst && len(st.Violations) > 0 {
+			break
+		}
 		if p.ctl != nil && (i < p.ctl.from || i > p.ctl.until) {
 			continue
 		}
